@@ -257,6 +257,34 @@ func Scenarios() []scenario {
 		c.SetWill(w)
 		return []any{c, w}, [][]thrOp{{opWrite("connect", c), opString("connect", c)}, {opWrite("will", w), opString("will", w), opAcc("will", w)}}
 	}})
+	// wills whose own flags and the connect flags may disagree (QoS 3 is
+	// settable on a PUBLISH but has no place in the connect flags; QoS and
+	// retain changed on the will after it was attached): the accessors of the
+	// CONNECT - Will() among them - run next to direct use of the will
+	for _, wv := range []struct {
+		name      string
+		qos       uint8
+		retain    bool
+		afterQoS  int
+		afterRet  bool
+		changeRet bool
+	}{{"qos3", 3, false, -1, false, false}, {"qos2-retain", 2, true, -1, false, false}, {"flags-changed-after-attach", 1, false, 2, true, true}} {
+		wv := wv
+		out = append(out, scenario{"will-shared-accessors/" + wv.name, func() ([]any, [][]thrOp) {
+			w := mq.Pub(wv.qos, "will/topic", "payload")
+			w.SetRetain(wv.retain)
+			c := mq.NewConnect()
+			c.SetClientID("cid")
+			c.SetWill(w)
+			if wv.afterQoS >= 0 {
+				w.SetQoS(uint8(wv.afterQoS))
+			}
+			if wv.changeRet {
+				w.SetRetain(wv.afterRet)
+			}
+			return []any{c, w}, [][]thrOp{{opAcc("connect", c), opString("connect", c)}, {opWrite("will", w), opAcc("will", w)}}
+		}})
+	}
 	out = append(out, scenario{"will-modified-after-attach", func() ([]any, [][]thrOp) {
 		w := mq.Pub(1, "will/topic", "payload")
 		c := mq.NewConnect()
